@@ -69,4 +69,34 @@ example : get_str_pow2 8 [0xfedcba9876543210, 0x1f] = digitsOf 8 (0xfedcba987654
   decide +kernel
 example : get_str_pow2 32 [1, 0, 1] = digitsOf 32 (1 + 2 ^ 128) := by decide +kernel
 
+/-- the power-of-two tables entries fit a limb (used by both power-of-two theorems) -/
+private theorem bigBase_le_64 {b : Nat} (hb62 : b ≤ 62) (hok : Pow2Ok b) : bigBase b ≤ 64 := by
+  by_contra hcon
+  have : 2 ^ 64 ≤ 2 ^ bigBase b := Nat.pow_le_pow_right (by omega) (by omega)
+  rw [hok.1] at this; omega
+
+/-- mpn_bc_set_str (Horner evaluation in chunks of chars_per_limb digits: each chunk is accumulated in one
+    limb, then `rp = rp·big_base + chunk` by mpn_mul_1 and mpn_add_1; the last chunk uses base^(its length))
+    returns exactly the value of the digit string, as proper limbs — every base 3..62 that is not a power
+    of two, every non-empty string of digits below the base. -/
+theorem bc_set_str_val (b : Nat) (hb : 2 ≤ b) (hb62 : b ≤ 62) (hnp : pow2P b = false)
+    (str : List Nat) (hne : str ≠ []) (hd : ∀ d ∈ str, d < b) :
+    val (bc_set_str b str) = ofDigits b str ∧ Limbs (bc_set_str b str) := by
+  have hok := (bases_table_ok.1 b (by omega) hb).1 hnp
+  have := bcLoop_val hb (hok.cpl_pos hb62) hok.1 (hok.1 ▸ hok.2.1) str.length str [] rfl hne hd Limbs_nil
+  simpa [bc_set_str] using this
+
+example : val (bc_set_str 10 ([1] ++ List.replicate 19 0 ++ [7])) = 10 ^ 20 + 7 := by decide +kernel
+example : bc_set_str 7 [6, 6, 6] = [342] := by decide +kernel
+
+/-- mpn_set_str for a power-of-two base (digits packed from the least significant end, a digit that
+    straddles a limb boundary is split over two limbs) returns exactly the value of the digit string. -/
+theorem set_str_pow2_val (b : Nat) (hb : 2 ≤ b) (hb62 : b ≤ 62) (hp : pow2P b = true)
+    (str : List Nat) (hd : ∀ d ∈ str, d < b) :
+    val (set_str_pow2 b str) = ofDigits b str ∧ Limbs (set_str_pow2 b str) := by
+  have hok := (bases_table_ok.1 b (by omega) hb).2 hp
+  exact set_str_pow2_of_table hok (bigBase_le_64 hb62 hok) str hd
+
+example : set_str_pow2 8 (List.replicate 22 7) = [2 ^ 64 - 1, 3] := by decide +kernel
+
 end Mpir.Radix
